@@ -74,4 +74,12 @@ let () =
     | "q" :: w :: rest -> do_q (int_of_string w) rest
     | ["x"; w; i; o] -> do_x (int_of_string w) (int_of_string i) (int_of_string o)
     | ["t"; w] -> do_t (int_of_string w)
+    | ["g"; _] ->   (* the four geometries: IN OUT mask dfree(OUT), and the decoder's LLR width *)
+      print_endline (String.concat " | " (List.map (fun (((i, o), m), d) ->
+        Printf.sprintf "%d %d %s %d" (int_of_nat i) (int_of_nat o)
+          (String.concat "" (List.map (fun b -> if b then "1" else "0") m)) (int_of_z d)) c02_masks)
+        ^ " | llr=" ^ string_of_int (int_of_nat c02_llr))
+    | ["f"; k; m] ->   (* dfree of an explicit mask for the first k bits *)
+      let mask = List.init (String.length m) (fun i -> m.[i] = '1') in
+      Printf.printf "%d\n" (int_of_z (c02_dfree mask (nat_of_int (int_of_string k))))
     | _ -> print_endline "?")
